@@ -64,7 +64,7 @@ def main():
     if os.path.exists(demo):
         shutil.copy(demo, os.path.join(dest, 'demonstration.py'))
     meta = {}
-    for name in ('meta.json', 'meta2.json', 'meta3.json', 'meta4.json', 'meta5.json', 'meta6.json', 'meta7.json'):
+    for name in ('meta.json', 'meta2.json', 'meta3.json', 'meta4.json', 'meta5.json', 'meta6.json', 'meta7.json', 'meta8.json', 'meta9.json'):
         try:
             got = json.load(open(os.path.join(src, name))).get(letter, {})
             if got:
